@@ -4,7 +4,11 @@
 use std::io::{self, BufRead, Write};
 use std::panic::{catch_unwind, AssertUnwindSafe};
 
+mod api;
+mod misc;
+mod prog;
 mod state;
+mod util;
 
 fn main() {
     let mode = std::env::args().nth(1).unwrap_or_default();
@@ -16,6 +20,15 @@ fn main() {
         let line = line.unwrap();
         let res = match mode.as_str() {
             "state" => state::run_line(&line),
+            "prog" => guarded(|| prog::prog_line(&line)),
+            "run" => guarded(|| prog::run_line(&line)),
+            "api" => guarded(|| api::api_line(&line)),
+            "rx" => guarded(|| api::rx_line(&line)),
+            "expand" => guarded(|| misc::expand_line(&line)),
+            "escape" => guarded(|| misc::escape_line(&line)),
+            "oracle" => guarded(|| misc::oracle_line(&line)),
+            "new" => guarded(|| misc::new_line(&line)),
+            "threads" => guarded(|| misc::threads_line(&line)),
             _ => {
                 eprintln!("usage: frh <mode>");
                 std::process::exit(2);
